@@ -69,7 +69,9 @@ def run_rsa(desc):
   keys = []
   for bits in desc['sizes']:
     p, q = fam.healthy(mat, bits)
-    keys.append(art.rsa_key(p * q, 65537))
+    # healthy keys come in any well-formed encoding (leading zero bytes in n / e)
+    enc = mat.below(4)
+    keys.append(art.rsa_key(p * q, 65537, pad_n=[0, 0, 1, 0][enc], pad_e=[0, 1, 0, 5][enc]))
   ret = libcall(paranoid.CheckAllRSA, keys)
   _assert_clean(keys, 'rsa', sizes=desc['sizes'])
   if ret is not False:
